@@ -198,6 +198,10 @@ def c11_configs(tier):
                 if tier == "quick" and ti >= 13 and (mode == "tex") != (ov == "none"):
                     continue
                 out.append(mk_cfg("c11-%s-time-derived-%d-%s" % (mode, ti, ov), mode=mode, scale="time-derived", n=len(ts), ctimes=ts, optvar=ov, direction=DIRS[ti % 4], texts=[ti % 4, 0, 1]))
+    for mode in ("svg", "tex"):
+        for ov in ("none", "empty"):
+            out.append(mk_cfg("c11-%s-single-datum-then-another-timeline-%s" % (mode, ov), mode=mode, scale="time-derived", n=1, ctimes=["2021-01-31T10:00:00"], optvar=ov, direction="right", texts=[1],
+                              then_construct=dict(n=2, ctimes=["1990-01-01T00:00:00", "1999-03-01T00:00:00"], name="other")))
     L = [[5.0], [3.0, 3.0], [88.0, 3.0], [1e-7, 2e-7], [0.0, 1e9, -1e9]]
     for li, ls in enumerate(L):
         for mode in ("svg", "tex"):
@@ -215,6 +219,11 @@ def c11(sink, cfg, val, sym):
         with_vpsc(cfg)
     try:
         tl, data, opts, info = build(cfg, val, sym)
+        if cfg.get("then_construct"):
+            # another timeline (other data, default scale) is constructed before this one is exported
+            other = dict(cfg)
+            other.update(cfg["then_construct"])
+            build(other, (lambda name, lo, hi: val("o_" + name, lo, hi)), sym)
         doc = export(tl, cfg["mode"])
     except Exception as ex:
         if sink.mode == "conc" and not props.exception_from_code_under_test(ex):
